@@ -69,7 +69,9 @@ Section Bind.
     else
       let res1 := aupdate (bvs (defaults_of s)) (bvs a2k) in             (* defaults, then positional *)
       let extra := skipn (npos s) args in
-      if negb (varargs s) && negb (Nat.eqb (List.length extra) 0) then LErr "ValueError"
+      if negb (varargs s) && negb (Nat.eqb (List.length extra) 0)
+      then LErr (if Nat.eqb (List.length extra) 1 then "ValueError" else "TypeError")
+           (* raise ValueError('... %s ...' % varargs): with two or more extra arguments the % itself raises TypeError *)
       else
         let res2 := if varargs s then aset VARGS (BT extra) res1 else res1 in
         LOk (if varkw s
